@@ -29,7 +29,13 @@ struct Config {
     /// element names carry a 40-byte common prefix on the wire (elements that agree in a long prefix must still
     /// be told apart by the iteration order; a seeded change that hashed only the first 32 bytes went unnoticed)
     long: bool,
+    /// how the keys came to be there (every history leaves a key that is present and has no deadline, or a distant
+    /// one): 0 plain; 1 written with a 1 ms deadline, the deadline then removed by an overwrite (SCAN) or PERSIST,
+    /// and the clock moved past the old deadline without a sweeper pass; 2 carrying a deadline far in the future
+    history: u8,
 }
+
+const HISTORIES: [&str; 3] = ["plain", "deadline removed, old deadline passed", "distant deadline"];
 
 const LONG_PREFIX: &str = "tenant:acme-corporation:eu-west-1:sessn:";
 
@@ -61,10 +67,16 @@ fn configs(thorough: bool) -> Vec<Config> {
                 for &pattern in patterns.iter() {
                     for &tf in types.iter() {
                         let want_long = (thorough || subset == 31) && tf.is_none();
+                        let want_hist = (thorough || subset == 31) && pattern.is_none();
                         let mut push = |mods: Vec<(usize, usize)>| {
-                            out.push(Config { kind, subset, big, count, pattern, type_filter: tf, mods: mods.clone(), long: false });
+                            out.push(Config { kind, subset, big, count, pattern, type_filter: tf, mods: mods.clone(), long: false, history: 0 });
+                            if want_hist && mods.len() <= 1 {
+                                for history in 1..HISTORIES.len() as u8 {
+                                    out.push(Config { kind, subset, big, count, pattern, type_filter: tf, mods: mods.clone(), long: false, history });
+                                }
+                            }
                             if want_long && mods.len() <= 1 {
-                                out.push(Config { kind, subset, big, count, pattern, type_filter: tf, mods, long: true });
+                                out.push(Config { kind, subset, big, count, pattern, type_filter: tf, mods, long: true, history: 0 });
                             }
                         };
                         push(vec![]);
@@ -90,6 +102,18 @@ fn configs(thorough: bool) -> Vec<Config> {
     out
 }
 
+/// Move the virtual clock 3 ms on, past every 1 ms deadline that was set and removed, without letting a sleeping
+/// background thread (the expiry sweeper) run in between: if one is due within the next 5 ms it is let run first.
+fn pass_old_deadlines() -> Result<(), String> {
+    use crate::vtime;
+    if let Some(w) = vtime::next_wake() {
+        if w < vtime::mono_ns() + 5_000_000 {
+            vtime::advance_to(w + 1).map_err(|_| "settle timeout letting the sweeper run".to_string())?;
+        }
+    }
+    vtime::tick(3_000_000).map_err(|_| "settle timeout during tick".to_string())
+}
+
 fn run_config(h: &mut Harness, c: &Config) -> Result<(Vec<String>, Value), String> {
     h.aux_call(&["FLUSHALL"])?;
     let kind = KINDS[c.kind];
@@ -105,6 +129,7 @@ fn run_config(h: &mut Harness, c: &Config) -> Result<(Vec<String>, Value), Strin
         }
     }
     let long = c.long;
+    let history = c.history;
     let add = |h: &mut Harness, e: &str| -> Result<(), String> {
         let wire = if long { format!("{}{}", LONG_PREFIX, e) } else { e.to_string() };
         let short = e;
@@ -124,6 +149,23 @@ fn run_config(h: &mut Harness, c: &Config) -> Result<(Vec<String>, Value), Strin
         if r.is_err() {
             return Err(format!("seeding {} failed: {}", e, resp::show(&r)));
         }
+        if kind == "SCAN" {
+            match history {
+                1 => {
+                    // a deadline, then the same value written again without one
+                    h.aux_call(&["PEXPIRE", e, "1"])?;
+                    if type_of_key(short) == "list" {
+                        h.aux_call(&["PERSIST", e])?;
+                    } else {
+                        h.aux_call(&["SET", e, "v"])?;
+                    }
+                }
+                2 => {
+                    h.aux_call(&["PEXPIRE", e, "100000000"])?;
+                }
+                _ => {}
+            }
+        }
         Ok(())
     };
     let del = |h: &mut Harness, e: &str| -> Result<(), String> {
@@ -139,6 +181,21 @@ fn run_config(h: &mut Harness, c: &Config) -> Result<(Vec<String>, Value), Strin
     };
     for e in present.clone().iter() {
         add(h, e)?;
+    }
+    if kind != "SCAN" && !present.is_empty() {
+        match history {
+            1 => {
+                h.aux_call(&["PEXPIRE", "coll", "1"])?;
+                h.aux_call(&["PERSIST", "coll"])?;
+            }
+            2 => {
+                h.aux_call(&["PEXPIRE", "coll", "100000000"])?;
+            }
+            _ => {}
+        }
+    }
+    if history != 0 {
+        pass_old_deadlines()?;
     }
     let mut ever: BTreeSet<String> = present.clone();
     let mut throughout: BTreeSet<String> = present.clone();
@@ -231,6 +288,9 @@ fn run_config(h: &mut Harness, c: &Config) -> Result<(Vec<String>, Value), Strin
                 if let Some(e) = what.strip_prefix("add:") {
                     if !present.contains(e) {
                         add(h, e)?;
+                        if history != 0 {
+                            pass_old_deadlines()?;
+                        }
                         present.insert(e.to_string());
                         ever.insert(e.to_string());
                     }
@@ -274,7 +334,7 @@ fn run_config(h: &mut Harness, c: &Config) -> Result<(Vec<String>, Value), Strin
     }
     problems.sort();
     problems.dedup();
-    let detail = json!({"kind": kind, "initial": throughout.iter().cloned().collect::<Vec<_>>(), "count": c.count, "match": c.pattern, "type": c.type_filter, "long_common_prefix": c.long,
+    let detail = json!({"kind": kind, "initial": throughout.iter().cloned().collect::<Vec<_>>(), "count": c.count, "match": c.pattern, "type": c.type_filter, "long_common_prefix": c.long, "key_history": HISTORIES[c.history as usize],
         "modifications": c.mods.iter().map(|(g, m)| format!("after call {}: {}", g + 1, MODS[*m])).collect::<Vec<_>>(), "trace": trace, "calls": calls});
     Ok((problems, detail))
 }
